@@ -98,17 +98,18 @@ def jarr(x):
 
 
 def tolist(x):
-    """Fractions -> JSON-able [num, den] pairs (nested)."""
+    """Fractions -> JSON-able strings "n/d" (nested); everything else unchanged."""
     if isinstance(x, Fr):
-        return [x.numerator, x.denominator]
+        return "%d/%d" % (x.numerator, x.denominator)
     if isinstance(x, (list, tuple)):
         return [tolist(y) for y in x]
     return x
 
 
 def fromlist(x):
-    if isinstance(x, list) and len(x) == 2 and all(isinstance(y, int) for y in x):
-        return Fr(x[0], x[1])
+    if isinstance(x, str) and re.fullmatch(r"-?\d+/\d+", x):
+        a, b = x.split("/")
+        return Fr(int(a), int(b))
     if isinstance(x, list):
         return [fromlist(y) for y in x]
     return x
@@ -162,7 +163,7 @@ def copt(x, f):
 
 HEADER = """From Coq Require Import QArith Qcanon ZArith.
 From mathcomp Require Import all_ssreflect all_algebra.
-From GT Require Import QcField QcOrder Tensor DetExec LogDom Obj Factor Measure Driver %s.
+From GT Require Import QcField QcOrder Tensor DetExec LogDom Obj Factor Measure Pdf Cond Driver %s.
 Local Close Scope Q_scope. Local Close Scope Qc_scope. Local Close Scope Z_scope.
 """
 
